@@ -427,7 +427,12 @@ def check_case(ops, impl, skip_lines=()):
                 break
             continue
         if f[0] in ("closeidle", "restart", "close"):
+            if got != "ok":
+                bad.append((i, ops[i], "ok", got))
+                break
             o.close()
+            if i in skip_lines:
+                o.forget(None)     # a listed finding changed what the reload shows
             continue
         if i in skip_lines:
             o.forget(o.keys_of(f) or None)
